@@ -74,7 +74,7 @@ func checkTLS(c TLSCase) vk.Verdict {
 		}
 		return ctx.SendString(chi.ServerName)
 	})
-	_ = app.Handler() // start-up
+	_ = app.Handler()                                                                                                              // start-up
 	cfg := &tls.Config{MinVersion: tls.VersionTLS12, Certificates: []tls.Certificate{testCert()}, GetCertificate: h.GetClientInfo} // as in listen.go
 	ln := fasthttputil.NewInmemoryListener()
 	srv := app.Server()
